@@ -138,6 +138,8 @@ type Options struct {
 // header, strictly ascending offsets starting at 0, and every member is one
 // non-stream object.
 //
+// Object number 0 never has an in-use entry.
+//
 // Not demanded: a linked free list, an entry for the cross-reference stream
 // itself, generation 65535 for object 0, any SHOULD-level advice.
 func Parse(data []byte) (*File, error) { return ParseWith(data, Options{}) }
@@ -311,6 +313,11 @@ func ParseWith(data []byte, opt Options) (*File, error) {
 				}
 			}
 		}
+	}
+	if e, ok := p.win[0]; ok && e.Type != 0 {
+		// 7.3.10: the object number of an indirect object is a positive
+		// integer; 7.5.4: the entry for object number 0 is always free
+		return nil, fail(ClauseEntry, newest.Offset, "object number 0 has an in-use entry (type %d): object numbers are positive and entry 0 heads the free list", e.Type)
 	}
 	for n := int64(0); n < f.Size; n++ {
 		if _, ok := p.win[uint32(n)]; !ok {
